@@ -136,7 +136,7 @@ def run(ck):
                 continue
             if not deps_r.startswith("OK"):
                 kf = [k for k in ck.open_findings() if k.get("class") == "c18.classic_embed_in_include"]
-                if kf and "(include *" not in c["src"] and "unknown keyword in helper" in deps_r and any("embed-file" in open(f).read() for f in c["files"] if f.endswith(".clib")):
+                if kf and "(include *" not in c["src"] and "unknown keyword in helper" in deps_r and any(("embed-file" in open(f).read() or "(include " in open(f).read()) for f in c["files"] if f.endswith(".clib")):
                     ck.known_finding(kf[0]["id"])
                     continue
                 direct.append({"clause": "the program compiles but its dependency listing fails", "src": c["src"], "deps": deps_r[:200]})
